@@ -173,13 +173,15 @@ def lines_of(enc):
 
 
 def signature(e, clause):
-    sig = {"clause": clause, "what": e["what"].split(":")[0], "conc": e["conc"] if e["what"].startswith(("api", "handle")) else "text",
+    sig = {"clause": clause, "what": e["what"].split(":")[0], "conc": e["conc"] if e["what"].startswith(("api", "handle")) else "text", "family": e["what"].split(":")[-1] if e["what"].startswith("call") else "",
            "out_s": e["out_s"], "out_t": e["out_t"], "kinds": ",".join(sorted(set(k for k in e["kinds_s"] if k != "missing")))}
     if clause == "encoding_differs_between_levels":
         # diagnostic: same segment lines in another order, or content missing on one side?
         ls, lt = lines_of(e["enc_s"]), lines_of(e["enc_t"])
         if len(ls) == len(lt) and all(sorted(a) == sorted(b) for a, b in zip(ls, lt)):
             sig["difference"] = "same_lines_other_order"
+        elif not any(x for a in ls for x in a) and any(x for b in lt for x in b):
+            sig["difference"] = "strict_encodes_nothing"
         else:
             miss = [x for a, b in zip(ls, lt) for x in b if x not in a]
             sig["difference"] = "z_segment_missing_under_strict" if miss and all(x[:1] == "Z" for x in miss) else "other"
@@ -245,6 +247,17 @@ def run(ctx):
             pj.append((v, items[k::4]))
     for part in pmap(parse_lockstep, pj):
         events.extend(part)
+    # single calls: constructors, fields beyond the defined ones, objects built elsewhere, whole child lists
+    from . import c05_calls
+    cj = []
+    for v in (T.versions() if not quick else ["2.2", "2.5", "2.6", "2.8.1"]):
+        n = c05_calls.count(v)
+        cj.extend((v, lo, min(lo + 90, n)) for lo in range(0, n, 90))
+    ncalls = 0
+    for part in pmap(c05_calls.lockstep, cj):
+        events.extend(part)
+        ncalls += len(part)
+    ctx.extra["single_call_scenarios"] = ncalls
     # kept traversal handles x attaching x assigning: every history of HandlesMC at both levels
     from . import handles
     hev = []
